@@ -450,8 +450,26 @@ func (w *twkbWriter) writeGeometryCollection(gc GeometryCollection) error {
 		}
 		subTWKB := subWriter.formTWKB()
 		w.twkbContents = append(w.twkbContents, subTWKB...)
+		w.mergeBBox(subWriter)
 	}
 	return nil
+}
+
+// mergeBBox expands the bounding box of w to include the bounding box
+// accumulated by the writer of one of its child geometries.
+func (w *twkbWriter) mergeBBox(sub *twkbWriter) {
+	if !sub.bboxValid {
+		return
+	}
+	for d := 0; d < w.dimensions; d++ {
+		if !w.bboxValid || sub.bboxMin[d] < w.bboxMin[d] {
+			w.bboxMin[d] = sub.bboxMin[d]
+		}
+		if !w.bboxValid || sub.bboxMax[d] > w.bboxMax[d] {
+			w.bboxMax[d] = sub.bboxMax[d]
+		}
+	}
+	w.bboxValid = true
 }
 
 func (w *twkbWriter) writeTypeAndPrecision(kind twkbGeometryType) {
